@@ -830,6 +830,9 @@ class Adapter(Subconstruct):
         buildret = self.subcon._build(obj2, stream, context, path)
         return obj
 
+    def _actualsize(self, stream, context, path):
+        return self.subcon._actualsize(stream, context, path)
+
     def _decode(self, obj, context, path):
         raise NotImplementedError
 
@@ -2794,6 +2797,10 @@ class Renamed(Subconstruct):
     def _sizeof(self, context, path):
         path += " -> %s" % (self.name,)
         return self.subcon._sizeof(context, path)
+
+    def _actualsize(self, stream, context, path):
+        path += " -> %s" % (self.name,)
+        return self.subcon._actualsize(stream, context, path)
 
     def _emitparse(self, code):
         return self.subcon._compileparse(code)
